@@ -25,7 +25,7 @@ def norm_rel(e, truth=True):
     if e[0] == 'bin' and e[1] in ('Lt', 'Le', 'Gt', 'Ge', 'Eq', 'Ne'):
         op, a, b = e[1].lower(), e[2], e[3]
     elif e[0] == 'call':
-        m = re.search(r'(?:PartialOrd|PartialEq)(?:<.*>)?>::(lt|le|gt|ge|eq|ne)$', e[1])
+        m = re.search(r'(?:PartialOrd|PartialEq)(?:<.*>)?>?::(lt|le|gt|ge|eq|ne)$', e[1])
         if m and len(e[2]) == 2:
             op, a, b = m.group(1), e[2][0], e[2][1]
     if op is None:
